@@ -734,7 +734,7 @@ def run_fixture(case, ctx):
 @st.composite
 def shape_case(draw):
     shapes = list(wbk.SHAPES) + ['loose-other-value', 'route-names-retyped-roadm-by-city']
-    shape = draw(st.sampled_from(shapes))
+    shape = shapes[draw(st.integers(0, 2 ** 24)) % len(shapes)]
     if shape not in ('loose-other-value', 'route-names-retyped-roadm-by-city'):
         return draw(wbk.shape_model(shapes=(shape,)))
     m = draw(wbk.valid_model(services=False))
@@ -795,4 +795,9 @@ FLOORS = {
     'valid:site:retyped-to-roadm': (0.15, 'valid'),
     'valid:service:rows': (0.3, 'valid'),
     'valid:eqpt-row:ILA:two-sided': (0.05, 'valid'),
+    'valid:service:route-list:ila-hop': (0.02, 'valid'),
+    'valid:roadms:rows': (0.05, 'valid'),
 }
+FLOORS.update({f'invalid:rule:{r}': (0.01, 'invalid') for r in wbk.INVALID_RULES})
+FLOORS.update({f'shapes:shape:{r}': (0.03, 'shapes') for r in list(wbk.SHAPES) + ['loose-other-value',
+                                                                                 'route-names-retyped-roadm-by-city']})
